@@ -427,7 +427,52 @@ def check_tiny_extent(spec, ctx):
             ctx.fail(f"compute_affinity{what}: {axis} extent {n} x {u!r}, part {j} x {u!r}: got {got!r}, the area intersection over union is {want!r}", spec, got, want, kind="tiny_extent_iou")
 
 
+def enum_equal_bounds(tier):
+    """Pairs of different shapes that have the SAME bounding box (and mostly the same area): the two halves of a box cut along its diagonal
+    (IoU 0), a rising and a falling right triangle on one base (1/3), the black and the white squares of a 2 x 2 checkerboard (0), a box
+    against the full-height box over the same time span (bandwidth / MAX_FREQUENCY), a box against the triangle inscribed in it (1/2)."""
+    out = []
+    for W in ([1.0, 0.25] if tier == "quick" else [1.0, 0.25, 8.0, 2.0**-6]):
+        for H in ([1024.0, 4096.0] if tier == "quick" else [1024.0, 4096.0, 64.0, 2.0**20]):
+            for t0 in (0.0, 2.0, 64.0):
+                for f0 in (0.0, 512.0):
+                    for pair in ("halves", "rise_fall", "checkerboard", "full_height", "inscribed"):
+                        for buffers in ("zero", "default"):
+                            out.append({"W": W, "H": H, "t0": t0, "f0": f0, "pair": pair, "buffers": buffers})
+    return out
+
+
+def check_equal_bounds(spec, ctx):
+    from soundevent import data
+    from soundevent.evaluation import compute_affinity
+
+    W, H, t0, f0 = spec["W"], spec["H"], spec["t0"], spec["f0"]
+    if W <= 0 or H <= 0 or t0 < 0 or f0 < 0 or f0 + H > MAXF or spec["pair"] not in ("halves", "rise_fall", "checkerboard", "full_height", "inscribed"):
+        raise ValueError("malformed spec")
+    a, b, c, d = t0, t0 + W, f0, f0 + H
+    tm, fm = (a + b) / 2, (c + d) / 2
+    P = lambda *pts: data.Polygon(coordinates=[[list(q) for q in pts]])  # noqa: E731
+    if spec["pair"] == "halves":
+        g1, g2, want = P((a, c), (b, c), (a, d)), P((b, c), (b, d), (a, d)), 0.0
+    elif spec["pair"] == "rise_fall":
+        g1, g2, want = P((a, c), (b, c), (b, d)), P((a, c), (b, c), (a, d)), 1 / 3
+    elif spec["pair"] == "checkerboard":
+        sq = lambda x0, y0: [[[x0, y0], [x0 + W / 2, y0], [x0 + W / 2, y0 + H / 2], [x0, y0 + H / 2]]]  # noqa: E731
+        g1, g2, want = data.MultiPolygon(coordinates=[sq(a, c), sq(tm, fm)]), data.MultiPolygon(coordinates=[sq(tm, c), sq(a, fm)]), 0.0
+    elif spec["pair"] == "full_height":
+        g1, g2, want = data.BoundingBox(coordinates=[a, 0.0, b, float(MAXF)]), data.BoundingBox(coordinates=[a, c, b, d]), H / float(MAXF)
+    else:
+        g1, g2, want = data.BoundingBox(coordinates=[a, c, b, d]), P((a, c), (b, c), (b, d)), 0.5
+    kw = {"time_buffer": 0, "freq_buffer": 0} if spec["buffers"] == "zero" else {}  # area geometries are not buffered: the defaults change nothing
+    ctx.case(spec, nontrivial=True, labels=[spec["pair"], spec["buffers"]], out={"expected": want})
+    for what, x, y in (("(g1, g2)", g1, g2), ("(g2, g1)", g2, g1)):
+        got = ctx.call(spec, f"compute_affinity{what} [{spec['pair']}]", compute_affinity, x, y, **kw)
+        if not (isinstance(got, (int, float)) and abs(got - want) <= 1e-9):
+            ctx.fail(f"compute_affinity{what} of the {spec['pair']} pair in the box [{a}, {b}] x [{c}, {d}] = {got!r}, the area intersection over union is {want!r}", spec, got, want, kind="equal_bounds_iou")
+
+
 SUBS = [
+    Sub("equal_bounds", check_equal_bounds, enumerate=enum_equal_bounds, exhaustive_note="a fixed family, not a domain: 5 shape pairs x box sizes x positions x buffers zero / default", min_nontrivial=0.0),
     Sub("tiny_extents", check_tiny_extent, enumerate=enum_tiny_extent, exhaustive_note="a fixed family, not a domain: units 5e-324 x 2^e (7 / 25 exponents) x widths 2..8 / 2..12 x every part x time / frequency x box / polygon", min_nontrivial=0.0),
     Sub("affinity_laws", check, strategy=case, quick=8100, thorough=250000, min_nontrivial=0.15),
     Sub("near_coincident", check, strategy=near_case, quick=6000, thorough=200000, min_nontrivial=0.5),
